@@ -328,6 +328,19 @@ def r2(rep, c, tag, side):
         rep.ob(R, f"{nm}: `done` is set (to true) only when the peer dropped {tag}",
                f.stores_const(s, 1) and guarded_by_variant(f, b, D, {"Dropped"}),
                "the end is marked finished on a path where the peer is still there", f.loc(b))
+        cnt_guard = False
+        for sb, vals, o in f.guard_edges(b):
+            tg = f.switch_targets(sb)
+            others = {t for v, t in tg.items() if v not in vals}
+            if others and all(diverges(f, t) for t in others):
+                continue  # an assertion, not a choice
+            if is_call(o, "ReturnCode::decode") and any(p.startswith("as ") for p in o.get("proj", [])):
+                cnt_guard = True
+            if o.get("kind") == "bin" and (count_src(f, o["a"], D) is not None or count_src(f, o["b"], D) is not None):
+                cnt_guard = True
+        rep.ob(R, f"{nm}: `done` is set for every count the peer's drop is reported with (no test on the count) {tag}",
+               not cnt_guard, "after Dropped(n) with some n the end would call the built-in again (the host traps)",
+               f.loc(b))
     # every Ok/Err result hands the caller's buffer back (the moved-in buffer, not a fresh one)
     bufs = []
     for b, s in ret_stores(f):
@@ -812,7 +825,8 @@ def r4(rep, c, tag):
                 off = f.origin(po["call"].args[1])
                 if is_call(base, re.compile(r"Vec::<T, A>::as_(mut_)?ptr$")):
                     kind = "native"
-                    okp = self_field(f.origin(base["call"].args[0]), "rust_storage") and self_field(off, "cursor")
+                    okp = self_field(f.origin(base["call"].args[0]), "rust_storage") and self_field(off, "cursor") \
+                        and "Payload" in po["call"].ga  # element-sized steps: the pointee is still the payload type
                 elif is_call(base, re.compile(r"Option::<T>::(unwrap_or|unwrap|expect|unwrap_or_else)$")):
                     kind = "lowered"
                     xs = [off.get("a", {}), off.get("b", {})]
@@ -830,6 +844,25 @@ def r4(rep, c, tag):
         kinds = bool_switches_on_call(f, "StreamOps::native_abi_matches_canonical_abi")
         rep.floor(R, f"{nm}: native_abi_matches_canonical_abi test {tag}", len(kinds), 1)
     rep.guard(R, f"AbiBuffer::abi_ptr_and_len {tag}", ptr_len)
+
+    def no_leak():
+        # the lowered copy (a `Cleanup`) is released by its Drop: nothing in the stream modules may defuse that Drop
+        LEAK = re.compile(r"(mem::forget|ManuallyDrop::<T>::new|Box::<T(, A)?>::(leak|into_raw)|mem::transmute)$")
+        n = 0
+        made = 0
+        for f in c.fns.values():
+            if "::abi_buffer::" not in f.path and "::stream_support::" not in f.path and "::futures_stream::" not in f.path:
+                continue
+            made += len(f.calls("Cleanup::new"))
+            for x in f.calls(LEAK):
+                n += 1
+                bad = any("Cleanup" in t or "AbiBuffer" in t for t in x.arg_types)
+                rep.ob(R, f"no Cleanup / AbiBuffer is leaked: {mir.norm(x.callee).split('::')[-1]} in "
+                          f"{f.npath.split('::')[-1]} {tag}", not bad,
+                       "the buffer holding lowered values would never be released", f.loc(x.bb))
+        rep.floor(R, f"forget-like calls inspected in the stream modules {tag}", n, 2)
+        rep.floor(R, f"Cleanup::new sites in the stream modules {tag}", made, 2)
+    rep.guard(R, f"no leak {tag}", no_leak)
 
 
 def raw_place(f, op, depth=6):
@@ -1261,6 +1294,18 @@ def r10(rep, c, tag, cfg):
             rep.ob(R, f"<&StreamVtable<T> as StreamOps>::{name} calls the vtable's `{name}` entry and no other {tag}",
                    len(ic) == 1 and len(via) == 1, f"{len(ic)} indirect call(s), {len(via)} through .{name}", f.loc())
         rep.floor(R, f"vtable forwarders {tag}", n, 10)
+        f = c.method("StreamVtable", "elem_layout", trait="StreamOps")
+        rep.saw(f)
+        o = f.place_origin({"l": 0})
+        rep.ob(R, f"<&StreamVtable<T> as StreamOps>::elem_layout is the vtable's `layout` {tag}",
+               arg_field(o, 1, "layout") and not f.calls(), "element stride would differ from the canonical ABI", f.loc())
+        for name, field, fn in (("native_abi_matches_canonical_abi", "lift", "Option::is_none"),
+                                ("contains_lists", "dealloc_lists", "Option::is_some")):
+            f = c.method("StreamVtable", name, trait="StreamOps")
+            rep.saw(f)
+            o = f.place_origin({"l": 0})
+            rep.ob(R, f"<&StreamVtable<T> as StreamOps>::{name} is `{field}`.{fn.split('::')[1]}() {tag}",
+                   is_call(o, fn) and arg_field(f.origin(o["call"].args[0]), 1, field) and len(f.calls()) == 1, "", f.loc())
         if cfg == "full":
             for name in BUILTINS:
                 f = c.method("UnitStreamOps", name, trait="StreamOps")
